@@ -275,6 +275,60 @@ func genPlatformOption(r *rand.Rand, ps platSpec) []List {
 	return out
 }
 
+// genNetworkRequired: the network constructor (directly and through a platform definition of
+// driver-type network) demands privilege levels AND a default desired privilege level; without
+// either it answers with a bad-option error. A default desired level that names none of the levels
+// is accepted by the library at construction; the property says nothing about it, so only the
+// snapshot is judged there.
+func genNetworkRequired() []List {
+	var out []List
+	lv := func(i int) Opt { return Opt{N: "WithPrivilegeLevels", I: i} }
+	ddp := func(s string) Opt { return Opt{N: "WithDefaultDesiredPriv", S: s} }
+	other := []Opt{{N: "WithPort", I: 2022}, {N: "WithAuthSecondary", S: "enable-secret"}}
+	for _, combo := range [][]Opt{
+		{lv(1)},                       // levels only
+		{ddp("exec")},                 // default desired priv only
+		{},                            // neither
+		{lv(1), ddp("")},              // an empty default desired priv
+		{lv(3), ddp("exec")},          // an empty map of levels
+		{lv(3)},                       // empty map, no default
+		{lv(1), ddp("exec"), ddp("")}, // valid, then emptied again: the later one wins
+		{lv(1), ddp("exec"), lv(3)},
+	} {
+		for _, wrap := range [][2][]Opt{{nil, nil}, {other, nil}, {nil, other}} {
+			l := append(append(append([]Opt{}, wrap[0]...), combo...), wrap[1]...)
+			out = append(out, List{K: kNetwork, Home: "A", Strict: true, Opts: l})
+		}
+	}
+	// held behaviour: complete, in either order, emptied then given again, a default that names no level
+	for _, combo := range [][]Opt{{lv(1), ddp("exec")}, {ddp("exec"), lv(1)}, {lv(3), ddp(""), lv(2), ddp("configuration")}, {lv(1), ddp("no-such-level")}} {
+		out = append(out, List{K: kNetwork, Home: "A", Opts: combo})
+	}
+	// the same options on constructors that build no network driver: ignored without error
+	for _, k := range []string{kGeneric, kNetconf, kPlatGen} {
+		out = append(out, List{K: k, Home: "A", Opts: []Opt{lv(1)}}, List{K: k, Home: "A", Opts: []Opt{ddp("exec")}}, List{K: k, Home: "A", Opts: []Opt{lv(3), ddp("")}})
+	}
+	// platform door, driver-type network
+	def := func(privs int, d string) *PlatDef { return &PlatDef{Privs: privs, DDP: d} }
+	for _, pd := range []*PlatDef{def(1, ""), def(3, "exec"), def(3, "")} {
+		out = append(out,
+			List{K: kPlatNet, Home: "A", Strict: true, Plat: pd},
+			List{K: kPlatNet, Home: "A", Strict: true, Plat: pd, Opts: other},
+			List{K: kPlatNet, Home: "A", Strict: true, Plat: &PlatDef{Privs: pd.Privs, DDP: pd.DDP, Options: []PlatOpt{{Name: "port", Kind: "int", I: 830}}}})
+	}
+	out = append(out,
+		// the user supplies what the definition lacks: valid
+		List{K: kPlatNet, Home: "A", Plat: def(1, ""), Opts: []Opt{ddp("privilege-exec")}},
+		List{K: kPlatNet, Home: "A", Plat: def(3, "exec"), Opts: []Opt{lv(2)}},
+		List{K: kPlatNet, Home: "A", Plat: def(3, ""), Opts: []Opt{ddp("exec"), lv(0)}},
+		// the user empties what the definition gave: the user's (later) value wins -> rejected
+		List{K: kPlatNet, Home: "A", Strict: true, Plat: def(1, "exec"), Opts: []Opt{ddp("")}},
+		List{K: kPlatNet, Home: "A", Strict: true, Plat: def(1, "exec"), Opts: []Opt{lv(3)}},
+		// a default that names no level: accepted by the library, not judged beyond the snapshot
+		List{K: kPlatNet, Home: "A", Plat: def(1, "no-such-level")})
+	return out
+}
+
 func genLogLists(r *rand.Rand, n int) [][]LogOpt {
 	var out [][]LogOpt
 	for i := 0; i < n; i++ {
@@ -316,6 +370,7 @@ func gen(tier string, seed int64) []mon.Case {
 	for _, sp := range specs {
 		cs = append(cs, mon.MkCase("c19/single/"+sp.Name, Desc{Kind: "lists", What: "single:" + sp.Name, Lists: genSingles(r, sp)}))
 	}
+	cs = append(cs, mon.MkCase("c19/invalid/network-required-options", Desc{Kind: "lists", What: "invalid:network-required-options", Lists: genNetworkRequired()}))
 	for _, ps := range platSpecs {
 		cs = append(cs, mon.MkCase("c19/platform-option/"+ps.Name, Desc{Kind: "lists", What: "platform-option:" + ps.Name, Lists: genPlatformOption(r, ps)}))
 		if ps.Kind == "bool" {
